@@ -2,7 +2,7 @@
 from core import Ctx, callee_tag, classify, describe, short, base_places
 from model import (Catalogue, self_field_targets, is_storage_type, store_type, item_storage,
                    is_phantom, STATE_MACHINES)
-from expr import trees, show, facts_at, operand_tree, reach_strict, CMP_OPS
+from expr import trees, show, facts_at, operand_tree, reach_strict, CMP_OPS, fact_still_holds
 
 WRITE_API = {
     ("Push", "push"), ("ReserveItems", "reserve_items"), ("Region", "reserve_regions"),
@@ -99,7 +99,48 @@ def peel_ok(F, R, body=None):
         R.check("R-PEEL", b.label(), c_ok, construct="encoder output re-emitted onto the same vector",
                 where=b.where(), detail="%d Vec::push sites" % len(pushes))
         ok_all = ok_all and a_ok and b_ok and c_ok
+    # (d) the bit cursor is rounded down to a byte boundary ("sheared") because the popped partial
+    #     byte is counted again when the encoder re-emits it: every path from the shear to an exit
+    #     pops the byte, unless the cursor was aligned there (the shear is then a no-op)
+    shears = []
+    for bi in sorted(b.live_blocks()):
+        for si, st in enumerate(b.blocks[bi]["stmts"]):
+            if st["k"] == "assign" and st["place"]["p"]:
+                val = trees(ctx, ctx.org.rvalue(st["rv"], bi, si))
+                nd = val
+                if nd[0] == "bin" and nd[1] == "Sub" and isinstance(nd[3], tuple) and nd[3][0] == "bin" and \
+                        nd[3][1] == "Rem" and nd[3][3] == ("const", "8"):
+                    shears.append((bi, st.get("line")))
+    if not shears:
+        R.undecided_site("R-PEEL", b.label(), "no rounding-down of the bit cursor recognised next to the pop")
+    aligned = set()
+    for bi in b.live_blocks():
+        for f in facts_at(ctx, bi):
+            if f[0] == "Eq" and f[2] == ("const", "0") and f[1][0] == "bin" and f[1][1] == "Rem" and \
+                    f[1][3] == ("const", "8"):
+                aligned.add(bi)
+    popset = {pbi for (pbi, _) in pops}
+    for (sbi, line) in shears:
+        if sbi in popset or sbi in aligned:
+            continue
+        d_ok = not any(b.can_return_avoiding(popset | aligned, frm=s_) for s_ in b.succs(sbi)
+                       if s_ not in popset and s_ not in aligned)
+        R.check("R-PEEL", b.label(), d_ok, construct="cursor rounded down only together with the pop",
+                where="%s:%s" % (b.file, line),
+                detail="every path from the rounding to an exit pops the partial byte or is on the aligned branch"
+                if d_ok else "some path rounds the bit cursor down, keeps the partial byte in place and returns: "
+                "the cursor then points before bits that are already stored")
+        ok_all = ok_all and d_ok
     return ok_all
+
+
+def _walk(t):
+    if isinstance(t, tuple):
+        if t and isinstance(t[0], str):
+            yield t
+        for x in t:
+            if isinstance(x, tuple):
+                yield from _walk(x)
 
 
 def contains_call(t, tag, recv=None):
@@ -237,7 +278,7 @@ def r_freeze(F, R, cat=None, cheapest=False):
                 if e.cls != "append" or e.ctx is not ctx:
                     continue
                 for (f, rest) in self_field_targets(e, ctx):
-                    facts = facts_at(ctx, e.bb)
+                    facts = [ff for ff in facts_at(ctx, e.bb) if fact_still_holds(ctx, ff, e.bb)]
 
                     def is_empty_of(fld):
                         return lambda t: (t[0] == "call" and t[1][1] == "is_empty" and t[2] and
@@ -288,6 +329,76 @@ def r_freeze(F, R, cat=None, cheapest=False):
                     where=b.where(), detail="%d guarded writes" % n_first, nontrivial=False)
 
 
+def field_ref_sites(body, adt, fld):
+    """locals that hold `&mut <place>.fld` where fld is a field of `adt`: {local: place-prefix}"""
+    out = {}
+    for bi in body.live_blocks():
+        for st in body.blocks[bi]["stmts"]:
+            if st["k"] == "assign" and st["rv"]["k"] == "ref" and not st["place"]["p"]:
+                pl = st["rv"]["place"]
+                for k, e in enumerate(pl["p"]):
+                    if e["k"] == "field" and e.get("adt") == adt and e.get("name") == fld and \
+                            all(x["k"] == "deref" for x in pl["p"][k + 1:]):
+                        out[st["place"]["l"]] = {"l": pl["l"], "p": pl["p"][:k]}
+    return out
+
+
+def r_foreign_writers(F, R, cat=None):
+    """The first level of a two-level container is append-only-while-the-second-is-empty.  The
+    container's own push is checked by R-GUARD; this rule looks at every *other* body of the crate
+    (bulk paths, deserialisation visitors, helpers) that appends to `<value of that type>.first`
+    directly.  Positive evidence of a violation: such an append sits in a loop that also appends
+    to `.second` of the same value and no dominating fact says `.second` is empty."""
+    from core import all_ctxs
+    cat = cat or Catalogue(F)
+    n = 0
+    for (adt, first, second, ib) in two_level(F, cat):
+        own = {b.key for b in F.bodies.values() if b.self_adt == adt and b.name == "push"}
+        for top in F.bodies.values():
+            if top.in_tests() or top.derived or top.kind == "Closure" or top.key in own:
+                continue
+            for ctx in all_ctxs(F, top):
+                b = ctx.body
+                firsts = field_ref_sites(b, adt, first)
+                seconds = field_ref_sites(b, adt, second)
+                if not firsts:
+                    continue
+                app1 = []
+                app2 = []
+                for (bi, t) in b.calls():
+                    if classify(t.get("callee")) != "append" or not t["args"] or t["args"][0]["k"] == "const":
+                        continue
+                    l = t["args"][0]["place"]["l"]
+                    if l in firsts:
+                        app1.append((bi, t, firsts[l]))
+                    if l in seconds:
+                        app2.append((bi, t, seconds[l]))
+                for (bi, t, base) in app1:
+                    n += 1
+                    R.saw(top)
+                    facts = [f for f in facts_at(ctx, bi) if fact_still_holds(ctx, f, bi)]
+                    guarded = any(f[0] == "truthy" and f[2] is True and f[1][0] == "call" and
+                                  f[1][1][1] == "is_empty" and mentions_field(f[1], second) for f in facts)
+                    where = "%s:%s" % (b.file, t["line"])
+                    cons = "append to %s.%s outside its push only while .%s is empty" % (short(adt), first, second)
+                    if guarded:
+                        R.check("R-GUARD", top.label(), True, construct=cons, where=where,
+                                detail="dominating fact: %s.is_empty()" % second)
+                        continue
+                    interleaves = [x for (x, _t, base2) in app2 if base2 == base and
+                                   (x in reach_strict(b, bi) and bi in reach_strict(b, x))]
+                    if interleaves:
+                        R.check("R-GUARD", top.label(), False, construct=cons, where=where,
+                                detail="this append and the append to .%s at blocks %s alternate in one loop "
+                                       "with no %s.is_empty() test: a value written to .%s after .%s is no longer "
+                                       "empty is read back before the earlier .%s values"
+                                       % (second, interleaves, second, first, second, second))
+                    else:
+                        R.undecided_site("R-GUARD", top.label(), "unguarded append to %s.%s at %s (no interleaving "
+                                         "append to .%s found)" % (short(adt), first, where, second))
+    R.info("R-GUARD: %d appends to a first level outside the container's own push" % n)
+
+
 def mentions_field(t, fld):
     if not isinstance(t, tuple):
         return False
@@ -311,6 +422,35 @@ def fmt_facts(facts):
         elif f[0] == "overflow":
             out.append("no-overflow %s" % show(f[1]))
     return out
+
+
+def presize_verdict(ctx, e):
+    """'exact': the reserved amount is len()/size_hint() of an iterator that is not advanced
+    between the measurement and the reservation; 'stale': it is advanced in between; None otherwise"""
+    b = ctx.body
+    t = e.term
+    if len(t["args"]) < 2:
+        return None
+    amount = operand_tree(ctx, t["args"][1])
+    meas = [nd for nd in _walk(amount) if nd[0] == "call" and nd[1][1] in ("len", "size_hint") and len(nd) == 5]
+    if len(meas) != 1 or amount[0] != "call":
+        return None
+    mbb = meas[0][4]
+    mt = b.term(mbb)
+    if not mt["args"] or mt["args"][0]["k"] == "const":
+        return None
+    mroots = {r for (r, p) in ctx.org.operand(mt["args"][0])}
+    fwd = reach_strict(b, mbb)
+    region = {x for x in fwd if x != e.bb and e.bb in reach_strict(b, x)}
+    for x in region:
+        xt = b.term(x)
+        if xt["k"] != "call":
+            continue
+        for a in xt["args"]:
+            if a["k"] in ("move", "copy") and b.locals[a["place"]["l"]]["ty"].get("mut"):
+                if mroots & {r for (r, p) in ctx.org.operand(a)}:
+                    return "stale"
+    return "exact"
 
 
 def r_noheap_until_spill(F, R, cat=None):
@@ -350,26 +490,48 @@ def r_noheap_until_spill(F, R, cat=None):
                             why.append("returns %s::%s" % tag)
             R.check("R-NOHEAP", b.label(), ok, construct="with_capacity allocates nothing before a spill",
                     where=b.where(), detail="; ".join(why) or "second level starts empty")
-        for b in cat.methods(adt, "reserve"):
+        # every &mut self method (reserve, and bulk paths such as extend): capacity for the second
+        # level only once something spilled
+        mut_methods = [b for b in F.bodies.values() if b.self_adt == adt and b.kind == "AssocFn" and
+                       not b.in_tests() and not b.derived and b.name not in ("with_capacity", "clone_from")]
+        for b in mut_methods:
+            ctx, effs = cat.effects(b)
+            res = [e for e in effs if e.cls == "reserve" and e.ctx is ctx and
+                   any(f == second for (f, rest) in self_field_targets(e, ctx))]
+            if not res and b.name != "reserve":
+                continue
             n += 1
             R.saw(b)
-            ctx, effs = cat.effects(b)
             ok = True
             why = []
-            for e in effs:
-                if e.cls != "reserve" or e.ctx is not ctx:
+            spill_appends = {e.bb for e in effs if e.cls == "append" and e.ctx is ctx and
+                             any(f == second for (f, rest) in self_field_targets(e, ctx))}
+            for e in res:
+                facts = facts_at(ctx, e.bb)
+                guarded = any(ff[0] == "truthy" and ff[2] is False and ff[1][0] == "call" and
+                              ff[1][1][1] == "is_empty" and ff[1][2] and
+                              ff[1][2][0] == ("place", b.key, ("arg", 1), ("f:" + second,)) for ff in facts)
+                after_spill = bool(spill_appends) and e.bb not in b.reachable(0, spill_appends)
+                if guarded or after_spill:
                     continue
-                for (f, rest) in self_field_targets(e, ctx):
-                    if f != second:
+                if b.name != "reserve":
+                    # a bulk path may pre-size the spill list for exactly what it appends next
+                    # (`reserve(rest.len()); extend(rest)`: nothing when everything was absorbed);
+                    # the count is stale -- and the reservation unconditional -- when the measured
+                    # iterator was consumed between the measurement and the reservation
+                    verdict = presize_verdict(ctx, e)
+                    if verdict == "exact":
+                        why.append("line %s reserves the measured remainder that is appended next" % e.line)
                         continue
-                    facts = facts_at(ctx, e.bb)
-                    guarded = any(ff[0] == "truthy" and ff[2] is False and ff[1][0] == "call" and
-                                  ff[1][1][1] == "is_empty" and ff[1][2] and
-                                  ff[1][2][0] == ("place", b.key, ("arg", 1), ("f:" + second,)) for ff in facts)
-                    if not guarded:
-                        ok = False
-                        why.append("reserve on %s at line %s is not guarded by !%s.is_empty()" % (second, e.line, second))
-            R.check("R-NOHEAP", b.label(), ok, construct="reserve gives the spill list capacity only after a spill",
+                    if verdict != "stale":
+                        R.undecided_site("R-NOHEAP", b.label(), "reserve on %s at line %s: amount not recognised" % (second, e.line))
+                        continue
+                ok = False
+                why.append("reserve on %s at line %s is reachable while nothing has spilled (no !%s.is_empty() "
+                           "guard, no earlier append to %s on every path%s)" % (
+                               second, e.line, second, second,
+                               "" if b.name == "reserve" else "; the amount was measured before the batch was consumed"))
+            R.check("R-NOHEAP", b.label(), ok, construct="%s gives the spill list capacity only after a spill" % b.name,
                     where=b.where(), detail="; ".join(why) or "guarded")
     R.floor("R-NOHEAP", "with_capacity/reserve of stride-first containers", n, 2)
 
